@@ -19,6 +19,19 @@ CHECKS = {
           "Geometry, Coord operands, swapped, variants, exact maps); Pos(g,p) for every fine-lattice point decides "
           "coordinate_position / intersects(coord) / contains(coord)."),
     note=_TB, technique="TLA+ Pos / DE-9IM masks enumerated by TLC; spec->impl replay", design_ref="DESIGN.md 5 C02"),
+ "C04": dict(
+    text=("Generate -> execute -> validate. Gen_BoolOps.tla: TLC enumerates candidate operands on the octilinear witness lattice and keeps "
+          "the valid ones (simple rings, shells with 1-2 holes incl. point contacts, two-member multipolygons, simple line strings). The "
+          "harness only forms pairs / collections, applies representation variants and exact maps, calls intersection / union / "
+          "difference / xor / boolean_op, unary_union and clip, and logs operands and results. Trace_BoolOps.tla judges every recorded "
+          "call from the point-set definition (one TLC state per event): membership of every face witness of the arrangement equals the "
+          "Boolean combination, result members do not overlap, exteriors ccw / holes cw, rings closed, exact area (the area identities), "
+          "unary_union = union of members = fold of pairwise unions, clip keeps exactly the inside (inverted: outside) edge witnesses, "
+          "boundary runs in exactly one of the two, lengths add up."),
+    note=("Trusted: TLC, the witness-lattice theorem (DESIGN.md 3.2), exactness of the maps, the harness's variant builders and the lattice "
+          "projection of results (integers up to 1e-6, else 1/16 grid with membership-only judgement). Scope: rings <= 6 edges on the "
+          "3x3 grid, shells on the 4x4 grid with <= 2 holes, <= 4 members for unary_union; the overlay engine itself is a black box."),
+    technique="TLA+ point-set region semantics; TLC-generated operand pool; recorded calls validated by TLC (trace validation)", design_ref="DESIGN.md 5 C04"),
  "C18": dict(
     text=("PolySession.tla is the state machine of Polygon / LineString / Rect under the public constructor and mutator calls "
           "(closures = edit sequences + Ok/Err exit). TLC model-checks RingsClosed and RectOrdered over all histories within the "
